@@ -43,7 +43,7 @@ from resonaate.scenario.clock import ScenarioClock
 from resonaate.scenario.config.estimation_config import GPB1AdaptiveEstimationConfig, SMMAdaptiveEstimationConfig
 
 PROPERTY = "C18"
-LEVEL = "exploration"
+LEVEL = "model_checking"
 RULE = (
     "one work item = one configuration (estimator SMM|GPB1, number of models, model layout on a line in units of the "
     "innovation sigma, prune threshold, convergence percentage, per-model covariance variant, mix ratio, driver "
